@@ -127,7 +127,9 @@ TARGETS = ["/pub", "/pub/f", "/pub/sub", "/pub/sub/g", "/priv", "/priv/f", "/pri
            "/priv\\f", "/priv\\new",
            # names with two dots *inside* them are names, not steps upwards
            "/pub/v1..v2", "/priv/a..b", "/priv/a..b/h", "/priv/new..", "/pub/..new"]
-VERBS = ["CWD", "CDUP", "LIST", "MLSD", "MLST", "RETR", "MKD", "RMD", "DELE", "RNFR", "RNTO", "STOR", "APPE"]
+VERBS = ["CWD", "CDUP", "LIST", "MLSD", "MLST", "RETR", "MKD", "RMD", "DELE", "RNFR", "RNTO", "STOR", "APPE",
+         # what looks like an ls switch is part of the name (there is no switch in FTP): the location is <cwd>/-a <path>
+         "LIST -a", "LIST -la"]
 CWDS = ["/", "/pub", "/priv/sub"]
 
 
@@ -157,7 +159,7 @@ def wire_case(item):
             hist = ["USER anonymous", "EPSV"]
             if cwd != "/":
                 hist.append("CWD " + cwd)
-            if verb in ("LIST", "MLSD", "RETR", "STOR", "APPE"):
+            if verb.split(" ")[0] in ("LIST", "MLSD", "RETR", "STOR", "APPE"):
                 hist.append("@data")
             if verb == "RNTO":
                 # a source that is renameable under this table, if any
